@@ -265,6 +265,8 @@ Definition clone (r : brepo) (new : str) : brepo * bool :=
           match stack_patches r cur, ref_get (b_refs r) (stack_ref cur) with
           | Some ps, Some sid =>
               if negb (name_free s_refs_heads (b_refs r1) None new) then (r1, false)
+              else if existsb (fun x => df_conflict x new) (names_under s_refs_stacks (b_refs r1))
+              then (r1, false)       (* the state ref cannot be written: the copied branch is taken back *)
               else
                 let refs2 := ref_set (ref_set (b_refs r1) (head_ref new) hid) (stack_ref new) sid in
                 let c0 := cfg_copy_section (b_cfg r1) cur new in
@@ -294,7 +296,80 @@ Definition unprotect (r : brepo) (b : str) : brepo * bool :=
            (b_head r1) (b_states r1), true)
   end.
 
+(* stg branch --create new [from]: `from` is an existing local branch when given; hid is the
+   commit HEAD points at (used when no `from` is given), sid the id of the state commit the
+   initialisation writes (a fresh object).  The new branch starts at the parent's head, gets an
+   empty stack - whatever refs/stacks/new or refs/patches/new/* were left behind by plain git are
+   overwritten / removed by the initialisation -, records its parent, inherits the parent's
+   remote / merge settings, and is checked out. *)
+Definition s_remote : str := [114; 101; 109; 111; 116; 101].        (* remote *)
+Definition s_merge : str := [109; 101; 114; 103; 101].              (* merge *)
+
+Definition create (r : brepo) (new : str) (from : option str) (hid sid : N) : brepo * bool :=
+  match ref_get (b_refs r) (head_ref new) with
+  | Some _ => refuse r                                   (* "branch already exists" *)
+  | None =>
+      let parent : option str := match from with Some f => Some f | None => b_head r end in
+      let target : option N :=
+        match from with
+        | Some f => ref_get (b_refs r) (head_ref f)
+        | None => Some hid
+        end in
+      match target with
+      | None => refuse r
+      | Some tid =>
+          if negb (name_free s_refs_heads (b_refs r) None new) then refuse r    (* the ref cannot be created *)
+          else if existsb (fun x => df_conflict x new) (names_under s_refs_stacks (b_refs r))
+          then refuse r                                  (* the state ref cannot be written: branch deleted again *)
+          else
+            let refs1 := ref_set (b_refs r) (head_ref new) tid in
+            let refs2 := ref_set refs1 (stack_ref new) sid in
+            let refs3 := ensure_patch_refs refs2 new [] in
+            let c1 := match parent with
+                      | Some p => cfg_set (b_cfg r) (stgit_sub new) s_parentbranch p
+                      | None => b_cfg r
+                      end in
+            let c2 := match parent with
+                      | Some p =>
+                          match cfg_get (b_cfg r) p s_remote, cfg_get (b_cfg r) p s_merge with
+                          | Some rem, Some mrg => cfg_set (cfg_set c1 new s_remote rem) new s_merge mrg
+                          | _, _ => c1
+                          end
+                      | None => c1
+                      end in
+            (mkB refs3 c2 (Some new) ((sid, []) :: b_states r), true)
+      end
+  end.
+
+(* stg branch <b>: switch (the work tree is assumed clean) *)
+Definition switch (r : brepo) (b : str) : brepo * bool :=
+  match ref_get (b_refs r) (head_ref b) with
+  | None => refuse r
+  | Some _ =>
+      match b_head r with
+      | Some cur => if str_eqb cur b then refuse r        (* "already the current branch" *)
+                    else (mkB (b_refs r) (b_cfg r) (Some b) (b_states r), true)
+      | None => (mkB (b_refs r) (b_cfg r) (Some b) (b_states r), true)
+      end
+  end.
+
+(* stg branch --describe <text> [b]: branch.<b>.description (removed when the text is empty) *)
+Definition describe (r : brepo) (b : str) (text : str) : brepo * bool :=
+  match ref_get (b_refs r) (head_ref b) with
+  | None => refuse r
+  | Some _ =>
+      (mkB (b_refs r)
+           (match text with
+            | [] => cfg_del_key (b_cfg r) b s_description
+            | _ => cfg_set (b_cfg r) b s_description text
+            end)
+           (b_head r) (b_states r), true)
+  end.
+
 Inductive bop : Type :=
+| BCreate (new : str) (from : option str) (hid sid : N)
+| BSwitch (b : str)
+| BDescribe (b : str) (text : str)
 | BClone (new : str)
 | BRename (old new : str)
 | BDelete (b : str) (force : bool)
@@ -304,6 +379,9 @@ Inductive bop : Type :=
 
 Definition bstep (r : brepo) (o : bop) : brepo * bool :=
   match o with
+  | BCreate n f hid sid => create r n f hid sid
+  | BSwitch b => switch r b
+  | BDescribe b t => describe r b t
   | BClone n => clone r n
   | BRename a b => rename r a b
   | BDelete b f => delete r b f
